@@ -12,6 +12,7 @@ var collidingNames = []string{"v1", "v2", "sched", "emitter", "tasks", "task0", 
 
 type printer struct {
 	p      *Prog
+	aux    strings.Builder // functions living in the corpus package's aux subpackage
 	b      strings.Builder // declarations before the program function
 	probes []ProbeInfo
 	wrap   bool
@@ -29,6 +30,22 @@ func (pr *printer) probe(what, expr string) string {
 
 func (pr *printer) tname(i int) string { return fmt.Sprintf("%sT%d", pr.pfx, i) }
 
+// mk / un return the constructor and projection of flow type i as spelled in
+// the program file.
+func (pr *printer) mk(ts []TypeSpec, i int) string {
+	if ts[i].Kind == TOther {
+		return fmt.Sprintf("ext.MkX%d", ts[i].X)
+	}
+	return "mk" + pr.tname(i)
+}
+
+func (pr *printer) un(ts []TypeSpec, i int) string {
+	if ts[i].Kind == TOther {
+		return fmt.Sprintf("ext.UnX%d", ts[i].X)
+	}
+	return "un" + pr.tname(i)
+}
+
 // typeStr is the Go spelling of flow type i.
 func (pr *printer) typeStr(ts []TypeSpec, i int) string {
 	n := pr.tname(i)
@@ -45,14 +62,19 @@ func (pr *printer) typeStr(ts []TypeSpec, i int) string {
 		return "rt.Box[" + n + "e]"
 	case TArray:
 		return "[2]" + n + "e"
+	case TOther:
+		panic("a type of an unimported package cannot be spelled in the program file")
 	}
 	panic("type kind")
 }
 
 func (pr *printer) declType(ts []TypeSpec, i int) {
 	n := pr.tname(i)
-	T := pr.typeStr(ts, i)
 	w := func(f string, a ...any) { fmt.Fprintf(&pr.b, f, a...) }
+	if ts[i].Kind == TOther {
+		return
+	}
+	T := pr.typeStr(ts, i)
 	switch ts[i].Kind {
 	case TStruct:
 		w("type %s struct{ V uint64 }\n", n)
@@ -87,18 +109,21 @@ func (pr *printer) declType(ts []TypeSpec, i int) {
 // taskFunc renders the user function of a flow task in the requested form
 // and returns the expression to put in the directive.
 func (pr *printer) flowTaskFunc(f *FlowP, t *TaskP) string {
+	if t.Form == FormAux {
+		return pr.auxTaskFunc(f, t)
+	}
 	var params, args []string
 	if t.Ctx {
 		params = append(params, "ctx context.Context")
 	}
 	for k, in := range t.In {
 		params = append(params, fmt.Sprintf("a%d %s", k, pr.typeStr(f.Types, in)))
-		args = append(args, fmt.Sprintf("un%s(a%d)", pr.tname(in), k))
+		args = append(args, fmt.Sprintf("%s(a%d)", pr.un(f.Types, in), k))
 	}
 	var rets, retv []string
 	for k, out := range t.Out {
 		rets = append(rets, pr.typeStr(f.Types, out))
-		retv = append(retv, fmt.Sprintf("mk%s(o.V[%d])", pr.tname(out), k))
+		retv = append(retv, fmt.Sprintf("%s(o.V[%d])", pr.mk(f.Types, out), k))
 	}
 	if t.Err {
 		rets = append(rets, "error")
@@ -141,6 +166,79 @@ func (pr *printer) flowTaskFunc(f *FlowP, t *TaskP) string {
 	return "func" + sig + " {\n" + body("h") + "}"
 }
 
+// auxTaskFunc writes the task's function into the aux package. Types of the
+// unimported package are spelled there; local named integer types enter
+// through type parameters, so the program file instantiates the function.
+func (pr *printer) auxTaskFunc(f *FlowP, t *TaskP) string {
+	tp := map[int]string{} // local type -> type parameter
+	var tparams, targs []string
+	tyName := func(ty int) string {
+		if f.Types[ty].Kind == TOther {
+			return fmt.Sprintf("other.X%d", f.Types[ty].X)
+		}
+		if n, ok := tp[ty]; ok {
+			return n
+		}
+		n := string(rune('A' + len(tp)))
+		tp[ty] = n
+		tparams = append(tparams, n+" ~uint64")
+		targs = append(targs, pr.tname(ty))
+		return n
+	}
+	params := []string{"ctx context.Context"}
+	var args, rets, retv []string
+	for k, in := range t.In {
+		n := tyName(in)
+		params = append(params, fmt.Sprintf("a%d %s", k, n))
+		if f.Types[in].Kind == TOther {
+			args = append(args, fmt.Sprintf("other.UnX%d(a%d)", f.Types[in].X, k))
+		} else {
+			args = append(args, fmt.Sprintf("uint64(a%d)", k))
+		}
+	}
+	for k, out := range t.Out {
+		n := tyName(out)
+		rets = append(rets, n)
+		if f.Types[out].Kind == TOther {
+			retv = append(retv, fmt.Sprintf("other.MkX%d(o.V[%d])", f.Types[out].X, k))
+		} else {
+			retv = append(retv, fmt.Sprintf("%s(o.V[%d])", n, k))
+		}
+	}
+	if t.Err {
+		rets = append(rets, "error")
+		retv = append(retv, "o.Err")
+	}
+	name := fmt.Sprintf("%sT%d", pr.pfx, t.ID)
+	sig := name
+	if len(tparams) > 0 {
+		sig += "[" + strings.Join(tparams, ", ") + "]"
+	}
+	sig += "(" + strings.Join(params, ", ") + ")"
+	switch len(rets) {
+	case 0:
+	case 1:
+		sig += " " + rets[0]
+	default:
+		sig += " (" + strings.Join(rets, ", ") + ")"
+	}
+	call := fmt.Sprintf("rt.HOf(ctx).Task(%d, ctx", t.ID)
+	if len(args) > 0 {
+		call += ", " + strings.Join(args, ", ")
+	}
+	call += ")"
+	if len(retv) == 0 {
+		fmt.Fprintf(&pr.aux, "func %s {\n\t%s\n}\n\n", sig, call)
+	} else {
+		fmt.Fprintf(&pr.aux, "func %s {\n\to := %s\n\treturn %s\n}\n\n", sig, call, strings.Join(retv, ", "))
+	}
+	expr := "ext." + name
+	if len(targs) > 0 {
+		expr += "[" + strings.Join(targs, ", ") + "]"
+	}
+	return expr
+}
+
 func (pr *printer) predFunc(f *FlowP, t *TaskP) string {
 	var params, args []string
 	ctxArg := "nil"
@@ -172,8 +270,9 @@ func emitterOpts(pr *printer, n int, nest bool) []string {
 	return out
 }
 
-// Source renders program p and fills p.Probes.
-func Source(p *Prog) string {
+// Source renders program p and fills p.Probes. The second result is the
+// source of the functions the program needs in its package's aux subpackage.
+func Source(p *Prog) (string, string) {
 	pr := &printer{p: p, pfx: fmt.Sprintf("P%d", p.ID)}
 	var fn string
 	if p.Flow != nil {
@@ -183,12 +282,38 @@ func Source(p *Prog) string {
 	}
 	p.Probes = pr.probes
 	var out strings.Builder
-	out.WriteString("//go:build cff\n\npackage " + p.Pkg + "\n\nimport (\n\t\"context\"\n\n\t\"cffverif/rt\"\n\n\t\"go.uber.org/cff\"\n)\n\nvar _ context.Context\nvar _ rt.H\n\n")
+	auxImport := ""
+	if pr.aux.Len() > 0 || usesOther(p) {
+		auxImport = "\t\"cffverif/corpus/" + p.Pkg + "/ext\"\n"
+	}
+	out.WriteString("//go:build cff\n\npackage " + p.Pkg + "\n\nimport (\n\t\"context\"\n\n" + auxImport + "\t\"cffverif/rt\"\n\n\t\"go.uber.org/cff\"\n)\n\nvar _ context.Context\nvar _ rt.H\n\n")
 	fmt.Fprintf(&out, "type %sw struct{ h rt.H }\n\n", strings.ToLower(pr.pfx))
 	out.WriteString(pr.b.String())
 	out.WriteString("\n")
 	out.WriteString(fn)
-	return out.String()
+	return out.String(), pr.aux.String()
+}
+
+func usesOther(p *Prog) bool {
+	if p.Flow == nil {
+		return false
+	}
+	for _, t := range p.Flow.Types {
+		if t.Kind == TOther {
+			return true
+		}
+	}
+	return false
+}
+
+// AuxHeader is the fixed part of every aux package.
+func AuxHeader() string {
+	var b strings.Builder
+	b.WriteString("// Package ext holds user functions of the generated programs that live in\n// another package, and the only spellings of types of package other the\n// program files can use without importing it.\npackage ext\n\nimport (\n\t\"context\"\n\n\t\"cffverif/rt\"\n\t\"cffverif/rt/other\"\n)\n\nvar _ context.Context\nvar _ rt.H\n\n")
+	for k := 0; k < 8; k++ {
+		fmt.Fprintf(&b, "func MkX%d(x uint64) other.X%d { return other.MkX%d(x) }\nfunc UnX%d(v other.X%d) uint64 { return other.UnX%d(v) }\n\n", k, k, k, k, k, k)
+	}
+	return b.String()
 }
 
 type renderItem struct {
@@ -215,10 +340,10 @@ func (pr *printer) flow(f *FlowP) string {
 		if k >= len(names) {
 			pname[t] = fmt.Sprintf("in%d", k)
 		}
-		fmt.Fprintf(&fb, "\t%s := mk%s(p[%d])\n", pname[t], pr.tname(t), k)
+		fmt.Fprintf(&fb, "\t%s := %s(p[%d])\n", pname[t], pr.mk(f.Types, t), k)
 	}
 	for k, t := range f.Results {
-		fmt.Fprintf(&fb, "\tr%d := mk%s(%d)\n", k, pr.tname(t), Sentinel)
+		fmt.Fprintf(&fb, "\tr%d := %s(%d)\n", k, pr.mk(f.Types, t), Sentinel)
 	}
 	// options, in shuffled order
 	var items []renderItem
@@ -281,7 +406,7 @@ func (pr *printer) flow(f *FlowP) string {
 				opts = append(opts, func() string {
 					var a []string
 					for k, o := range t.Out {
-						a = append(a, pr.probe("fallback", fmt.Sprintf("mk%s(%d)", pr.tname(o), FBVal(pr.p.ID, t.ID, k))))
+						a = append(a, pr.probe("fallback", fmt.Sprintf("%s(%d)", pr.mk(f.Types, o), FBVal(pr.p.ID, t.ID, k))))
 					}
 					return "cff.FallbackWith(" + strings.Join(a, ", ") + ")"
 				})
@@ -320,7 +445,7 @@ func (pr *printer) flow(f *FlowP) string {
 		if k > 0 {
 			fb.WriteString(", ")
 		}
-		fmt.Fprintf(&fb, "un%s(r%d)", pr.tname(t), k)
+		fmt.Fprintf(&fb, "%s(r%d)", pr.un(f.Types, t), k)
 	}
 	fb.WriteString("}, err\n}\n")
 	return fb.String()
